@@ -227,7 +227,7 @@ def _binary_fault_case(draw):
 def _wide_scenario(draw):
     if draw(st.integers(0, 2)) == 2:
         return draw(scen.toy_multi_scenario(cap=250))
-    return draw(scen.toy_binary_scenario(cap=300))
+    return draw(scen.toy_binary_scenario(cap=300, allow_elastic=True))
 
 
 def clauses():
